@@ -318,7 +318,7 @@ pub fn long_signature_histories(ctx: &mut Ctx, opts: &RunOpts) {
     // builder with the long-signature key; a record of a NORMAL toy key updated with the long-signature key
     for entries in [vec![], vec![BEntry::Udp4(1)], vec![BEntry::Add(b"pad".to_vec(), Val::B(vec![1; 200]))]] {
         n += 1;
-        if ctx.mine(n) {
+        if ctx.mine_few(n) {
             let h = mk_history(Scheme::Toy, own, other, &Init::Build(entries), vec![]);
             run_hist_kt(ctx, KT::Toy, false, &h, opts);
             ctx.count("long-signature-cases");
